@@ -27,11 +27,11 @@ Fixpoint chunks (fuel : nat) (s : str) : list tree :=
   end.
 Definition of_str (s : str) : tree := L (chunks (S (length s)) s).
 
-(* the statement text is compared by length and a polynomial hash modulo the Mersenne prime 2^61 - 1
-   (the cases files would otherwise be dominated by six copies of every statement) *)
-Definition HASH_P : Z := 2305843009213693951%Z.
+(* the statement text is compared by length and a 60-bit multiplicative hash (the cases files would
+   otherwise be dominated by six copies of every statement) *)
+Definition HASH_MASK : Z := 1152921504606846975%Z.      (* 2^60 - 1 *)
 Definition hash_str (s : str) : Z :=
-  fold_left (fun h c => ((h * 257 + Z.of_N c + 1) mod HASH_P)%Z) s 0%Z.
+  fold_left (fun h c => Z.land (h * 1000003 + Z.of_N c + 1) HASH_MASK) s 0%Z.
 Definition of_text (s : str) : tree := L [I (hash_str s); I (Z.of_nat (length s))].
 
 (* ---- decoding of a case ---- *)
@@ -44,11 +44,11 @@ Definition as_tok (t : tree) : option tok :=
   end.
 Definition as_kind (t : tree) : option bkind :=
   match t with I 0%Z => Some Plain | I 1%Z => Some Expand | I 2%Z => Some LitExec | _ => None end.
+(* a scalar value is an integer, a list value a list of integers *)
 Definition as_pval (t : tree) : option pval :=
   match t with
-  | L [I 0%Z; I v] => Some (PS v)
-  | L [I 1%Z; l] => option_map PL (as_list_of as_Z l)
-  | _ => None
+  | I v => Some (PS v)
+  | L _ => option_map PL (as_list_of as_Z t)
   end.
 Definition as_values (t : tree) : option (option (list name)) :=
   match t with
@@ -58,12 +58,13 @@ Definition as_values (t : tree) : option (option (list name)) :=
   end.
 Definition as_input (t : tree) : option input :=
   match t with
-  | L [t1; t2; t3; t4; t5] =>
+  | L [t1; t2; t3; t4; t5; t6] =>
     match as_list_of as_tok t1, as_list_of as_str t2, as_list_of (as_pair_of as_str as_kind) t3,
-          as_values t4, as_list_of (as_pair_of as_str as_pval) t5 with
-    | Some toks, Some order, Some kinds, Some vals, Some params =>
-        Some {| i_toks := toks; i_order := order; i_kind := kinds; i_values := vals; i_params := params |}
-    | _, _, _, _, _ => None
+          as_values t4, as_list_of (as_pair_of as_str as_pval) t5, as_bool t6 with
+    | Some toks, Some order, Some kinds, Some vals, Some params, Some pc =>
+        Some {| i_toks := toks; i_order := order; i_kind := kinds; i_values := vals; i_params := params;
+                i_pc := pc |}
+    | _, _, _, _, _, _ => None
     end
   | _ => None
   end.
@@ -113,19 +114,27 @@ Fixpoint ins_sorted {V} (kv : name * V) (l : list (name * V)) : list (name * V) 
 Definition sort_dict {V} (d : dict V) : dict V := fold_right ins_sorted [] d.
 
 Definition of_pval (v : pval) : tree :=
-  match v with PS z => L [I 0%Z; I z] | PL l => L [I 1%Z; of_list I l] end.
+  match v with PS z => I z | PL l => of_list I l end.
+(* a parameter dictionary is compared by its size and the hash of its sorted (name, value) items *)
+Definition hash_zs (l : list Z) : Z :=
+  fold_left (fun h z => Z.land (h * 1000003 + z + 1) HASH_MASK) l 0%Z.
+Definition pval_zs (v : pval) : list Z :=
+  match v with PS z => [z] | PL l => (-2)%Z :: l ++ [(-3)%Z] end.
+Definition dict_zs (d : dict pval) : list Z :=
+  flat_map (fun kv => map Z.of_N (fst kv) ++ (-1)%Z :: pval_zs (snd kv) ++ [(-4)%Z]) (sort_dict d).
 Definition of_fparams (fp : fparams) : tree :=
   match fp with
   | FPos l => L [I 0%Z; of_list of_pval l]
-  | FDict d => L [I 1%Z; of_list (fun kv => L [of_str (fst kv); of_pval (snd kv)]) (sort_dict d)]
+  | FDict d => L [I 1%Z; I (hash_zs (dict_zs d)); I (Z.of_nat (length d))]
   end.
 Definition of_exn (e : exn) : tree :=
   L [I (match e with AssertionError => 1 | KeyError => 2 | TypeError => 3 end)%Z].
 
 Definition styles : list style := [Qmark; Format; Numeric; NumericDollar; Named; Pyformat].
 
-(* input   L [toks; order; kinds; values; params]
-   output  L [ per style:  L [I 0; L [hash text; length text]; params]  |  L [I code] ] *)
+(* input   L [toks; order; kinds; values; params; has-post-compile-binds]
+   output  L [ per style:  L [I 0; L [hash text; length text]; params]  |  L [I code] ]
+   params  L [I 0; L values]  (positional)  |  L [I 1; hash of the sorted items; size]  (dictionary) *)
 Definition run_with (tab : list (N * N)) (empty_expr : str) (t : tree) : tree :=
   match as_input t with
   | Some inp =>
